@@ -463,6 +463,7 @@ def run_shard(shard, tier, rec):
                     depth,
                     jobs,
                     warm=[(cfg, WARM[world])],
+                    ctx=dict(world=world, eoc=eoc),
                 )
                 rec.count("depth completed %s eoc=%s" % (world, eoc), d)
     finally:
@@ -476,6 +477,8 @@ def _tuplify(x):
 
 
 def replay(case):
+    if case.get("kind") == "hang":  # recorded by the per-step watchdog: re-run the step without a limit
+        case = dict(case.get("ctx") or {}, history=case["history"], op=case["op"])
     gc.disable()
     try:
         cfg = make_cfg(case["world"], case["eoc"])
